@@ -44,6 +44,38 @@ pub fn gen(prop: &str, scen: &str, _k: u64, seed: u64, tier: &str) -> Case {
             case.input.p1 = *r_in.pick(&[1u64, 7, 64, 777, 1000]);
             case.wops = if r_ops.pct(60) { vec![] } else { vec![simcore::case::WOp::W(usize::MAX), simcore::case::WOp::F] };
         }
+        "oob.stopmove" => {
+            // The state a seeded search over inputs does not reach (seeded change S-C15-5): the
+            // encoder runs out of input with its one-position look-ahead outstanding, at the
+            // position where the window is moved next, reached by literals only (no match
+            // overshoots the read limit), with rep0 equal to the dictionary size, for a
+            // dictionary size whose window move has no alignment slack. Constructed: the stop
+            // position of a full window is keep_size_before + reserve = dict + extra +
+            // dict / 2 + 256 KiB; extra is swept so that nothing depends on the constants.
+            optgen::random_format(&mut r_opt, &mut case, &["lzma", "lzma", "lzip"], 10000);
+            case.opt.dict = *r_opt.pick(&[4096u32, 4096, 8192]) + 128 * r_opt.range(0, 8) as u32 + 124 + r_opt.below(2) as u32;
+            case.opt.mode = if r_opt.pct(85) { 0 } else { 1 };
+            case.opt.preset = None;
+            case.opt.unit = None;
+            case.opt.filters.clear();
+            case.opt.nice = *r_opt.pick(&[16u32, 32, 32, 64, 273]);
+            if case.opt.depth > 4 {
+                case.opt.depth = 4;
+            }
+            let d = case.opt.dict as usize;
+            let extra = *r_in.pick(&[0usize, 1, 1, 2, 3, 4, 4096, 4097]);
+            let p = d + extra + d / 2 + (256 << 10);
+            let total = p + 545 + 3000 + r_in.urange(0, 2000);
+            case.input = InputSpec { class: "stop_lookahead".into(), len: total, seed: r_in.next_u64(), p1: d as u64, p2: p as u64 };
+            if r_ops.pct(30) {
+                let mut left = total;
+                while left > 0 {
+                    let k = r_ops.urange(1, 90_000).min(left);
+                    case.wops.push(simcore::case::WOp::W(k));
+                    left -= k;
+                }
+            }
+        }
         "oob.movewin" => {
             // window moves without slack: dictionary sizes that are not multiples of the
             // 64-byte move alignment, data whose matches sit at the largest distance the
